@@ -2,7 +2,7 @@
 from .. import gen
 from . import common
 
-SPEC_THEOREM = 'Props/C06: editor_m (enc inputs) = enc (editor_t inputs); editors preserve well-formedness; documented errors append nothing'
+SPEC_THEOREM = 'Props/C06: editor_m (enc inputs) = enc (editor_t inputs); editors preserve well-formedness; the byte editors as state functions over the caller buffer: f_st (enc v) args buf = (buf ++ enc result, Ok) or (buf, Err documented) (C06_errors_leave_the_buffer_unchanged), and on any input an error return leaves the buffer as it was (C06_errors_leave_the_buffer_unchanged_on_any_input)'
 TRUSTED = ['Coq 8.16.1 kernel', 'translator', 'extraction + OCaml driver', 'Rust harness',
            'specification TreeOps.v (tree edits); every editor and builder is an offset-faithful byte walker (EditWalk.v, EditWalk2.v over Iter.v + Builder.v) with a refinement proof (C06_*_bytes) and tied to the Rust function by correspondence incl. corrupt buffers']
 ASSUMPTIONS = ['inputs are canonical encodings of well-formed values']
@@ -242,11 +242,23 @@ def normalise_outcome(c, o):
     return o
 
 
+WRITE_AS_THEY_GO = ('build_array', 'build_object')   # an error return of these two leaves the header slot + entries (recorded)
+
+
 def judge(ctx):
     for c in ctx.cases:
-        if c.kind == 'malformed':
-            continue          # corrupt buffers only feed the model/implementation diff
         o = ctx.impl.get(c.id, 'missing')
+        # judged on the IMPLEMENTATION's output alone, valid and corrupt inputs alike, whatever the model says: an error
+        # return of an editor leaves the caller's buffer (empty, or the @prefix of the case) exactly as it was
+        name, _, pre = c.line.split(' ')[0].partition('@')
+        if o.startswith('err ') and name not in WRITE_AS_THEY_GO:
+            f = o.split(' ')
+            left = gen.unhexarg(f[2]) if len(f) > 2 else None
+            ctx.count('error_returns_checked_for_buffer', name)
+            if left != bytes.fromhex(pre):
+                ctx.violate('an error return left bytes appended to (or changed) the buffer', case=c.line, observed=o[:300])
+        if c.kind == 'malformed':
+            continue          # beyond that, corrupt buffers only feed the model/implementation diff
         m = c.meta
         if c.kind == 'malformed':
             if o.startswith('abort:'):
